@@ -159,8 +159,9 @@ def cmp_rw(lhs, rhs, fn_prefix, lhs_out=None, rhs_out=None):
             n += 1
             a = m.group('a') if lhs_out is None else lhs_out
             b = m.group('b') if rhs_out is None else rhs_out
-            return f"{fn_prefix}_{'eq' if m.group('op') == '==' else 'ne'}({a}, {b})"
-        text = re.sub(r'(?P<a>' + lhs + r')\s*(?P<op>==|!=)\s*(?P<b>' + rhs + r')', rep, text)
+            name = {'==': 'eq', '!=': 'ne', '<': 'lt', '<=': 'le', '>': 'gt', '>=': 'ge'}[m.group('op')]
+            return f"{fn_prefix}_{name}({a}, {b})"
+        text = re.sub(r'(?P<a>' + lhs + r')\s*(?P<op>==|!=|<=|>=|<|>)\s*(?P<b>' + rhs + r')', rep, text)
         return text, n
     return FnRw(f'map `{lhs} ==/!= {rhs}` to {fn_prefix}_eq/_ne (operator carried over one-to-one)', f, None)
 
